@@ -51,6 +51,12 @@ FullAdder(V, i) == Div(Add(V.u.o, TotalAdder(V, i)), V.u.f)
 \* sees lower > upper (the image of the feasible interval is [ScaleB(upper), ScaleB(lower)]).
 ScaleB(d, i, b) == IF b = NoV THEN NoV ELSE ScaleU(d, i, b)
 
+\* the bound PAIR an optimizer sees is the image of the interval [lo, up]: a negative scaler reverses the order, so the
+\* image of the upper bound is the optimizer's lower bound and vice versa (absent stays absent on the other side)
+NegSc(d, i) == RSgn(TotalScaler(d, i)) < 0
+LoB(d, i, lo, up) == IF NegSc(d, i) THEN ScaleB(d, i, up) ELSE ScaleB(d, i, lo)
+UpB(d, i, lo, up) == IF NegSc(d, i) THEN ScaleB(d, i, lo) ELSE ScaleB(d, i, up)
+
 \* total derivative blocks: model block J[r][c] = d resp_r / d dv_c
 UnitJ(J, Rsp, Dv) == [r \in DOMAIN J |-> [c \in DOMAIN J[r] |-> Div(Mul(J[r][c], Rsp.u.f), Dv.u.f)]]
 ScaleJ(J, Rsp, Dv) == [r \in DOMAIN J |-> [c \in DOMAIN J[r] |->
@@ -84,6 +90,9 @@ Decl1 == <<D1("none", <<NoV, NoV>>)>> \o [k \in 1..15 |-> D1("sa", SA(k))] \o [k
 Decl2 == <<D2("none", <<NoV, NoV>>, <<NoV, NoV>>)>>
          \o [k \in 1..15 |-> D2("sa", SA(k), SA(Rot(k)))]
          \o <<D2("sa", SA(1), SA(1)), D2("sa", SA(12), SA(12))>>
+         \* arrays in which ONE element has the neutral value (scaler exactly 1, adder exactly 0) and the other does not
+         \o <<D2("sa", <<One, Zero>>, SA(7)), D2("sa", SA(4), <<One, Q(2, 1)>>), D2("sa", <<Q(2, 1), Zero>>, <<Q(2, 1), Q(-1, 1)>>),
+              D2("sa", <<One, Q(-1, 1)>>, <<Q(3, 1), Zero>>)>>
          \o <<D2("ref", RefSeq[1], RefSeq[2]), D2("ref", RefSeq[2], RefSeq[6]), D2("ref", RefSeq[3], <<Q(3, 1), NoV>>),
               D2("ref", RefSeq[4], <<NoV, Q(2, 1)>>), D2("ref", RefSeq[5], RefSeq[1]), D2("ref", RefSeq[6], RefSeq[6])>>
 Decl(n) == IF n = 1 THEN Decl1 ELSE Decl2
@@ -158,9 +167,10 @@ Expect(s) ==
     IN [dvU |-> [i \in 1..s.n |-> ToUnits(s.dv.u, s.x[i])], dvS |-> [i \in 1..s.n |-> Scale(s.dv, i, s.x[i])],
         conU |-> [i \in 1..s.n |-> ToUnits(s.con.u, y[i])], conS |-> [i \in 1..s.n |-> Scale(s.con, i, y[i])],
         objU |-> <<ToUnits(s.obj.u, f[1])>>, objS |-> <<Scale(s.obj, 1, f[1])>>,
-        dvLo |-> [i \in 1..s.n |-> ScaleB(s.dv, i, s.dvb.lo[i])], dvUp |-> [i \in 1..s.n |-> ScaleB(s.dv, i, s.dvb.up[i])],
-        conLo |-> [i \in 1..s.n |-> ScaleB(s.con, i, s.conb.lo[i])],
-        conUp |-> [i \in 1..s.n |-> ScaleB(s.con, i, s.conb.up[i])],
+        dvLo |-> [i \in 1..s.n |-> LoB(s.dv, i, s.dvb.lo[i], s.dvb.up[i])],
+        dvUp |-> [i \in 1..s.n |-> UpB(s.dv, i, s.dvb.lo[i], s.dvb.up[i])],
+        conLo |-> [i \in 1..s.n |-> LoB(s.con, i, s.conb.lo[i], s.conb.up[i])],
+        conUp |-> [i \in 1..s.n |-> UpB(s.con, i, s.conb.lo[i], s.conb.up[i])],
         conEq |-> [i \in 1..s.n |-> ScaleB(s.con, i, s.conb.eq[i])],
         JcU |-> UnitJ(Jcon(s), s.con, s.dv), JoU |-> UnitJ(Jobj(s), s.obj, s.dv), JcS |-> JcS, JoS |-> JoS,
         xset |-> [i \in 1..s.n |-> Unscale(s.dv, i, s.yset[i])],
@@ -209,15 +219,16 @@ RefLaw == stage = 1 => \A W \in Vois0 : \A i \in 1..W[2] :
              /\ W[1].kind = "ref" => /\ ScaleU(W[1], i, Dflt(W[1].p[i], One)) = One
                                      /\ ScaleU(W[1], i, Dflt(W[1].q[i], Zero)) = Zero
              /\ W[1].kind = "none" => \A x \in Grid : ScaleU(W[1], i, x) = x
-\* bounds: absent stays absent; a present bound is the image of the model value it bounds; order is kept by a positive
-\* scaler and reversed by a negative one (the implementation does not swap)
+\* bounds: absent stays absent; a present bound is the image of the model value it bounds; the images are ordered by a
+\* positive scaler and reversed by a negative one, so the pair handed to the optimizer (LoB, UpB) is exchanged there
 BoundLaw1(V, i, lo, up) ==
     /\ ScaleB(V, i, NoV) = NoV
     /\ lo # NoV => ScaleB(V, i, lo) = Scale(V, i, FromUnits(V.u, lo))
     /\ up # NoV => ScaleB(V, i, up) = Scale(V, i, FromUnits(V.u, up))
-    /\ (lo # NoV /\ up # NoV /\ Lt(lo, up)) =>
-          IF RSgn(TotalScaler(V, i)) > 0 THEN Lt(ScaleB(V, i, lo), ScaleB(V, i, up))
-          ELSE Gt(ScaleB(V, i, lo), ScaleB(V, i, up))
+    /\ (lo # NoV /\ up # NoV /\ Lt(lo, up)) => Lt(LoB(V, i, lo, up), UpB(V, i, lo, up))
+    \* one-sided: x >= lo iff image(x) on the right side of the single image
+    /\ (lo # NoV /\ up = NoV) => \A x \in Grid :
+          Le(lo, x) <=> (IF NegSc(V, i) THEN Le(ScaleU(V, i, x), UpB(V, i, lo, up)) ELSE Le(LoB(V, i, lo, up), ScaleU(V, i, x)))
     \* a value is inside [lo, up] iff its image is between the images
     /\ (lo # NoV /\ up # NoV) => \A x \in Grid :
           (Le(lo, x) /\ Le(x, up)) <=>
@@ -227,8 +238,10 @@ BoundLaw == /\ stage = 1 => LET V == Voi(scen.n, scen.idv)
                                 BS == DvB(scen.n) \o ConB(scen.n)
                             IN \A k \in 1..Len(BS) : \A i \in 1..scen.n : BoundLaw1(V, i, BS[k].lo[i], BS[k].up[i])
             /\ stage = 2 => \A i \in 1..scen.n : /\ (scen.conb.eq[i] = NoV) = (out.conEq[i] = NoV)
-                                                  /\ (scen.conb.lo[i] = NoV) = (out.conLo[i] = NoV)
-                                                  /\ (scen.dvb.up[i] = NoV) = (out.dvUp[i] = NoV)
+                                                  /\ ((IF NegSc(scen.con, i) THEN scen.conb.up[i] ELSE scen.conb.lo[i]) = NoV)
+                                                        = (out.conLo[i] = NoV)
+                                                  /\ ((IF NegSc(scen.dv, i) THEN scen.dvb.lo[i] ELSE scen.dvb.up[i]) = NoV)
+                                                        = (out.dvUp[i] = NoV)
 
 \* composition law: the optimizer sees h = Scale_resp o model o Unscale_dv.  h is affine, so its derivative with respect
 \* to optimizer variable c is the exact difference h(y0 + e_c) - h(y0); it must equal ScaleJ of the model block.
